@@ -127,6 +127,19 @@ def _cmp_loaded(w, loaded, ref, meta, oracle, what, subset=False):
     d = diff_ref(s, exp)
     if d:
         w.fail(oracle, '%s: %s' % (what, d))
+    # a category written with one scalar type reads back with that type
+    for ax in (0, 1):
+        if ref.md[ax] is None or s.md[ax] is None:
+            continue
+        for key in ref.md[ax][0]:
+            kinds = {type(d_[key]) for d_ in ref.md[ax] if key in d_}
+            if len(kinds) == 1 and kinds <= {int, float, bool, str}:
+                got = {type(d_.get(key)) for d_ in s.md[ax]}
+                if got != kinds:
+                    w.fail(oracle, '%s: %s category %r written as %s reads '
+                           'back as %s' % (what, AXNAME[ax], key,
+                                           sorted(k.__name__ for k in kinds),
+                                           sorted(k.__name__ for k in got)))
     if subset:
         return
     want_id = ref.table_id if ref.table_id else 'No Table ID'
@@ -340,7 +353,7 @@ def c14_subset(w, ev, slot):
                             % (names,))
             if unknown:
                 w.stats['fault.F2.armed'] += 1
-                bad = list(names) + [w.absent_id()]
+                bad = list(names) + [w.absent_like(ref.ids[ax], c // 5)]
                 for label, fn in (
                         ('from_hdf5', lambda: Table.from_hdf5(
                             h5py.File(path, 'r'), ids=bad, axis=AXNAME[ax])),
@@ -411,7 +424,8 @@ def c14_subset(w, ev, slot):
         w.stats['fault.F2.armed'] += 1
         try:
             gen, fmt = _subset_table(None, text, AXNAME[ax],
-                                     list(names) + [w.absent_id()])
+                                     list(names) +
+                                     [w.absent_like(ref.ids[ax], c // 5)])
             list(gen)
             refused = False
         except Exception:  # noqa
